@@ -169,6 +169,30 @@ fn n_try_call(vm: &mut Vm<Host>, f: Value) -> HR {
     Ok(vm.run_function(f).unwrap_or(Value::Nil))
 }
 
+fn n_try_call1(vm: &mut Vm<Host>, f: Value, a: Value) -> HR {
+    record(vm, "try_call1", &[f, a]);
+    let h0 = cao_lang::verif::vm_stack_len(vm);
+    vm.stack_push(a)?;
+    match vm.run_function(f) {
+        Ok(v) => Ok(v),
+        Err(_) => {
+            // a value that is not callable does not consume the argument this host pushed: a
+            // careful host takes it back
+            while cao_lang::verif::vm_stack_len(vm) > h0 {
+                vm.stack_pop();
+            }
+            Ok(Value::Nil)
+        }
+    }
+}
+
+/// like try_call1, but relies on a failed call having consumed its argument
+fn n_try_call1_keep(vm: &mut Vm<Host>, f: Value, a: Value) -> HR {
+    record(vm, "try_call1_keep", &[f, a]);
+    vm.stack_push(a)?;
+    Ok(vm.run_function(f).unwrap_or(Value::Nil))
+}
+
 pub fn register_natives(vm: &mut Vm<Host>, natives: &[NativeSpec]) {
     for n in natives {
         let r = match (n.name.as_str(), &n.behaviour, n.arity) {
@@ -181,6 +205,8 @@ pub fn register_natives(vm: &mut Vm<Host>, natives: &[NativeSpec]) {
             ("fail", NativeBehaviour::Fail, 1) => vm.register_native_function("fail", into_f1(n_fail)),
             ("pack2", NativeBehaviour::Pack, 2) => vm.register_native_function("pack2", into_f2(n_pack2)),
             ("try_call", NativeBehaviour::TryReenter, 1) => vm.register_native_function("try_call", into_f1(n_try_call)),
+            ("try_call1", NativeBehaviour::TryReenter, 2) => vm.register_native_function("try_call1", into_f2(n_try_call1)),
+            ("try_call1_keep", NativeBehaviour::TryReenter, 2) => vm.register_native_function("try_call1_keep", into_f2(n_try_call1_keep)),
             ("reenter0", NativeBehaviour::Reenter, 1) => vm.register_native_function("reenter0", into_f1(n_reenter0)),
             ("reenter1", NativeBehaviour::Reenter, 2) => vm.register_native_function("reenter1", into_f2(n_reenter1)),
             ("reenter2", NativeBehaviour::Reenter, 3) => vm.register_native_function("reenter2", into_f3(n_reenter2)),
